@@ -59,6 +59,7 @@ fn can_pass_check(
         !out.0 ==> exists|k: int| 0 <= k < rules_of(res).len() && out.1->Some_0 == #[trigger] rules_of(res)[k] && !admits(rules_of(res)[k], ctx.node()->Some_0.inflight(), ctx.inp().batch()) && (forall|i: int| 0 <= i < k ==> admits(#[trigger] rules_of(res)[i], ctx.node()->Some_0.inflight(), ctx.inp().batch())),
 {
     let stat_node = ctx.stat_node().unwrap();
+    let batch_count = ctx.input().batch_count();
     for rule in it: get_rules_of_resource(res) 
         invariant
             it.seq() == rules_of(res),
@@ -70,8 +71,8 @@ fn can_pass_check(
         let threshold = rule.threshold;
         if rule.metric_type == MetricType::Concurrency {
             let curr_count = stat_node.current_concurrency();
-            // if pass the task in the `ctx`, the limits on concurrency would break
-            if curr_count >= threshold {
+            // if pass `batch_count` tasks in the `ctx`, the limits on concurrency would break
+            if curr_count + batch_count > threshold {
                 return (false, Some(rule), Some(Arc::new(curr_count)));
             }
         }
